@@ -84,10 +84,10 @@ CHECKS['C11'] = dict(_FS, level_text='same closed state space; every in-domain t
 CHECKS['C12'] = dict(title='Dynamic bitset behaves like a growable reference bit vector', engine='xstate',
     harness=['harness/c12_bitset.cpp'], flags='asan', lib=True, level='model_checking', deadline={'quick': 120, 'thorough': 1500}, hang_s=60,
     technique='explicit-state model checking of the real object: every bitset state up to a size bound x complete operation/position/operand alphabet against a hand-written set model',
-    level_text='all states (size, set of positions) with size <= 5 (quick) / <= 9 (thorough) are expanded with every operation, position 0..size+2, shift 0..size+2 and every operand bitset of size <= 4 / <= 6; the state graph is closed for these sizes, so operation sequences of any length that stay within the size bound are covered',
+    level_text='all states (size, set of positions) with size <= 7 (quick) / <= 9 (thorough) are expanded with every operation, position 0..size+2, shift 0..size+2 and every operand bitset of size <= 5 / <= 6; the state graph is closed for these sizes, so operation sequences of any length that stay within the size bound are covered',
     level_note='trusts the 40-line set-arithmetic reference, AddressSanitizer and libstdc++ debug assertions (bit-level bounds of vector<bool>); sizes beyond the bound are only reached as transition targets',
     rule='state = (size, set positions) of a real DynamicBitset built through its public interface; transition = one operation with one argument; after every transition all observers (test for every position, count, any, none, all, to_string, to_ulong, 5 iteration forms) are compared with the reference content; compound vs binary operators compared directly; non-trivial = distinct states expanded',
-    bound={'quick': 'states with size <= 5 (63 states), operands size <= 4, positions/shifts 0..size+2, to_ulong bits 60..66',
+    bound={'quick': 'states with size <= 7 (255 states), operands size <= 5, positions/shifts 0..size+2, to_ulong bits 60..66',
            'thorough': 'states with size <= 9 (1023 states), operands size <= 6'},
     assumptions=['growth is judged by content and by size >= position+1, never by the growth factor', 'reset() is judged by content (all bits clear), not by the resulting size',
                  'undefined behaviour without observable effect (1L << 63) is not reported'])
@@ -95,11 +95,11 @@ CHECKS['C12'] = dict(title='Dynamic bitset behaves like a growable reference bit
 CHECKS['C19'] = dict(title='Buffered reading and writing preserve the byte stream for every chunking', engine='xstate',
     harness=['harness/c19_buffers.cpp'], flags='asan', lib=False, level='model_checking', deadline={'quick': 120, 'thorough': 1200}, hang_s=60, workers=8,
     technique='explicit-state model checking of the real buffers: BFS over (start,end) / write position with every request length and EVERY source chunking as environment choice',
-    level_text='the state space of ReadBuffer<N>/WriteBuffer<N> closes for N=1..4 (quick) / 1..8 (thorough): every get/append length 0..N+2 from every state with every way the source can split its answer; result therefore holds for unbounded histories at these capacities',
+    level_text='the state space of ReadBuffer<N>/WriteBuffer<N> closes for N=1..6 (quick) / 1..10 (thorough): every get/append length 0..N+2 from every state with every way the source can split its answer; result therefore holds for unbounded histories at these capacities',
     level_note='canonical state drops the absolute stream offset (data-independence argument, cross-checked by expanding states reached at two offsets); trusts AddressSanitizer for the internal new[] buffer and exact-size caller buffers',
     rule='state = (mDataStart,mDataEnd) resp. mWritePos of a real object rebuilt by history replay; transition = get(len)/append(len)/flush with one complete vector of source answers (1..max bytes per readData call); '
          'oracle: returned/sunk bytes equal the position-coded stream, buffer content invariant, refusals of len>N, pass-through of oversized writes; non-trivial = distinct states',
-    bound={'quick': 'N = 1..4, lengths 0..N+1 (read) / 0..N+2 + flush (write), all chunkings', 'thorough': 'N = 1..8'},
+    bound={'quick': 'N = 1..6, lengths 0..N+1 (read) / 0..N+2 + flush (write), all chunkings', 'thorough': 'N = 1..10'},
     assumptions=['the source always delivers at least 1 byte (a source that returns 0 forever makes get() spin by design)', 'byte values do not influence control flow (checked by the two-offset cross-check)'])
 
 CHECKS['C17'] = dict(title='Text-block formatting preserves the words and respects indentation and width', engine='xenum',
@@ -124,14 +124,14 @@ CHECKS['C01'] = dict(title='Command-line values reach their typed destinations, 
 _RULES = dict(engine='xenum', harness=['harness/c02_rules.cpp'], flags='asan', lib=True, level='model_checking', build_id='rules', deadline={'quick': 240, 'thorough': 2400}, hang_s=60,
     technique='bounded-exhaustive enumeration: rule-matrix configurations x ALL abstract lines up to a depth x surface spellings, executed on the real Handler; verdict from an abstract rule evaluator',
     level_note=_ARGS_NOTE,
-    bound={'quick': 'one rule family per configuration (~140 configurations incl. two rules on the same partner x abbreviations on/off), all lines of <= 3 uses, spellings with <= 1 deviation',
+    bound={'quick': 'one rule family per configuration (~140 configurations incl. two rules on the same partner x abbreviations on/off), all lines of <= 3 uses, spellings with <= 2 deviations',
            'thorough': 'lines of <= 4 uses, <= 2 deviations, + pairs of rule families on disjoint arguments (lines <= 3 uses), more bystanders'})
 CHECKS['C02'] = dict(_RULES, title='No command line that breaks a declared rule is silently accepted', worker_args=['--opt', 'prop=C02'],
-    level_text='every rule of the matrix x every abstract line of <= 3/4 uses that the evaluator calls invalid, in canonical spelling and every spelling with <= 1/2 deviations, plus surface-level mutations (unknown key, missing value, stray value, forbidden/ambiguous abbreviation): evalArguments must throw',
+    level_text='every rule of the matrix x every abstract line of <= 3/4 uses that the evaluator calls invalid, in canonical spelling and every spelling with <= 2 deviations, plus surface-level mutations (unknown key, missing value, stray value, forbidden/ambiguous abbreviation): evalArguments must throw',
     rule='configuration (rule family x destination kinds x key kinds) x sequences of uses over value domains with good/boundary/bad values x spellings; states = configurations, transitions = evalArguments calls; non-trivial = configurations; counters report how often each rule was the broken one',
     assumptions=['only WHICH lines must be rejected is judged, never the exception type or message', 'lines whose verdict the documentation leaves open are skipped and counted (abstract_lines_unspecified_skipped)'])
 CHECKS['C03'] = dict(_RULES, title='Every command line that obeys the declared rules is accepted', worker_args=['--opt', 'prop=C03'],
-    level_text='every abstract line the evaluator calls valid, for every rule configuration and 3 (thorough 5) bystander variants, in every spelling with <= 1/2 deviations: evalArguments must return and leave the evaluator\'s values',
+    level_text='every abstract line the evaluator calls valid, for every rule configuration and 3 (thorough 5) bystander variants, in every spelling with <= 2 deviations: evalArguments must return and leave the evaluator\'s values',
     rule='as C02 with the valid lines; bystander variants add unused arguments with own checks/constraints/hidden/deprecated flags and long keys that extend or are prefixes of used keys',
     assumptions=['order-sensitive rules are judged as documented (excluded argument before its excluder is valid; required partner only before the requirer is unspecified and skipped)'])
 
